@@ -216,6 +216,52 @@ Proof.
 Qed.
 End Shift.
 
+
+(* ---- the compiled jump acceptances with the uniform prior and the Gaussian balancing draw are the Python jump acceptances *)
+Section Jumps.
+Variable tr : R -> R -> R -> R -> R -> R -> R -> R -> R -> R -> R -> R -> R.
+Variable betapdf : R -> R -> R -> R.
+Variable ND : R.
+Hypothesis Hbeta : forall u, betapdf u (1149 / 200) (1149 / 200) * (11045219407152909 / 10 ^ 16) = ND * Rpower (u * (1 - u)) (949 / 200).
+Variable mh : state -> R -> R.
+
+Lemma py_prior_dc : py_prior betapdf 0 0 = 1.
+Proof.
+  unfold py_prior. destruct (sumbool_and _ _ _ _ (Req_EM_T 0 0) (Req_EM_T 0 0)) as [_|[C|C]]; [reflexivity|destruct (C eq_refl)|destruct (C eq_refl)].
+Qed.
+
+(* double-couple -> full tensor: the proposal carries the balancing pair (g, d) that the caller passes as (qg, qd) *)
+Theorem acceptance_jump_up_uniform_gaussian g d h s gs ds h0 hs s0 ss k lp lp0 jump sg sd pn pdc :
+  let x := mkState g d k h s in let xi_reduced := mkState 0 0 k h s in
+  let prior := fun st => py_prior betapdf (s_gamma st) (s_delta st) in
+  0 < jump -> ~ (g = 0 /\ d = 0) ->
+  acceptance tr (uniform_prior_ratio ND) gaussian_jump_prob g d h s 0 gs 0 ds h0 hs s0 ss lp lp0 jump g d sg sd pn pdc =
+  jump_up_acc (fun st => qb_gauss st sg sd pn) prior mh x lp xi_reduced lp0 pdc.
+Proof.
+  intros x xi_reduced prior J H. rewrite acceptance_jump_up by assumption.
+  assert (P0 : py_prior betapdf 0 0 <> 0) by (rewrite py_prior_dc; lra).
+  rewrite (uniform_prior_ratio_is_prior_ratio betapdf ND Hbeta g d 0 0 P0).
+  change g with (s_gamma x) at 2. change d with (s_delta x) at 2. rewrite jump_prob_qb.
+  unfold jump_up_acc. cbv zeta. f_equal. unfold prior. cbn [s_gamma s_delta xi_reduced x]. rewrite py_prior_dc.
+  unfold Rdiv. rewrite ?Rinv_mult, ?Rinv_1. ring.
+Qed.
+
+(* full tensor -> double-couple: the balancing pair is the (g0, d0) of the current state *)
+Theorem acceptance_jump_down_uniform_gaussian h s g0 gs d0 ds h0 hs s0 ss k0 lp lp0 jump sg sd pn pdc :
+  let xi := mkState g0 d0 k0 h0 s0 in let x_reduced := mkState 0 0 k0 h0 s0 in
+  let prior := fun st => py_prior betapdf (s_gamma st) (s_delta st) in
+  0 < jump -> prior xi <> 0 ->
+  acceptance tr (uniform_prior_ratio ND) gaussian_jump_prob 0 0 h s g0 gs d0 ds h0 hs s0 ss lp lp0 jump g0 d0 sg sd pn pdc =
+  jump_down_acc (fun st => qb_gauss st sg sd pn) prior mh x_reduced lp xi lp0 pdc.
+Proof.
+  intros xi x_reduced prior J P0. rewrite acceptance_jump_down by assumption.
+  rewrite (uniform_prior_ratio_is_prior_ratio betapdf ND Hbeta 0 0 g0 d0 P0).
+  change g0 with (s_gamma xi) at 2. change d0 with (s_delta xi) at 2. rewrite jump_prob_qb.
+  unfold jump_down_acc. cbv zeta. f_equal. unfold prior. cbn [s_gamma s_delta x_reduced xi]. rewrite py_prior_dc.
+  unfold Rdiv. rewrite ?Rinv_mult, ?Rinv_1. ring.
+Qed.
+End Jumps.
+
 (* ---- the flat prior across a model jump: the compiled ratio is 1, the Python priors give 3/pi^2 *)
 Lemma flat_prior_ratio_on_jumps_refuted betapdf : flat_prior_ratio <> flat_prior_mt betapdf / 1.
 Proof.
